@@ -214,12 +214,12 @@ def genDiagonal (sqrtF : Rat → Rat) (slf : Obj) : Rat :=
   (sqrtF (vsum ((IVec.toV (shapeOf slf)) * (IVec.toV (shapeOf slf)))))
 
 def genConstrainPointsToBounds (slf : Obj) (points : Vec) : Vec :=
-  let boundedpoints0 := points
-  let boundedpoints1 := (vwhere (vltZero boundedpoints0) (0) boundedpoints0)
+  let boundedpoints0 := (Owned.mk points)
+  let boundedpoints1 := (Owned.vwhere (vltZero (AsVec.vec boundedpoints0)) (0) boundedpoints0)
   let shape0 := (IVec.toV (shapeOf slf))
-  let overimage0 := (vltZero (shape0 - boundedpoints1))
-  let boundedpoints0 := (vwhere overimage0 shape0 boundedpoints1)
-  boundedpoints0
+  let overimage0 := (vltZero (AsVec.vec (shape0 - boundedpoints1)))
+  let boundedpoints0 := (Owned.vwhere overimage0 shape0 boundedpoints1)
+  (AsVec.vec boundedpoints0)
 
 def genTransformAboutCentreT (obj : Obj) (transform : TObj) : TObj :=
   let toorigin0 := (TObj.translation (-(genCentre obj)))
